@@ -289,8 +289,24 @@ func (s *SpokFile) run(stream iostream.IOStream, runner shell.Runner, force bool
 		switch {
 		case cachedDigest == "" || currentDigest != cachedDigest:
 			// The digest is either empty or out of date, in which case the action to be taken is the same
-			// run the task and update the cache digest
+			// run the task and update the cache digest. The old digest is forgotten first, so that if spok
+			// is interrupted part way through the task it is not mistaken for up to date later on
+			if cachedDigest != "" {
+				cachedState.Set(taskToRun.Name, "")
+				if err := cachedState.Dump(cachePath); err != nil {
+					return nil, err
+				}
+			}
 			result, err = taskToRun.Run(runner, stream, s.Env())
+			if err != nil || !result.Ok() {
+				// It did not complete, what it last completed against still stands
+				cachedState.Set(taskToRun.Name, cachedDigest)
+				if cachedDigest != "" {
+					if dumpErr := cachedState.Dump(cachePath); dumpErr != nil {
+						return nil, dumpErr
+					}
+				}
+			}
 			if err != nil {
 				return nil, fmt.Errorf("Task %q encountered an error: %w", taskToRun.Name, err)
 			}
@@ -313,7 +329,7 @@ func (s *SpokFile) run(stream iostream.IOStream, runner shell.Runner, force bool
 						currentDigest = ""
 					}
 				}
-				if currentDigest != cachedDigest {
+				if currentDigest != "" || cachedDigest != "" {
 					s.logger.Debug("Updating cached state for task %s", taskToRun.Name)
 					cachedState.Set(taskToRun.Name, currentDigest)
 					if err := cachedState.Dump(cachePath); err != nil {
